@@ -312,6 +312,41 @@ def explore(ck, pid, tier):
             ck.violation("correspondence-G", "model (coq/Graph.v, V_fixed) and core/node.py disagree on an API program",
                          {"stream": "G", "ops": small, "root": root, "impl": impl, "model": m,
                           "theorem": "correspondence stream G"}, found_input=False)
+    if pid == "C05":
+        # the graphs of the five front ends: every leaf applied by some generated path, every path reaches a new leaf
+        import frontends
+        fe = {}
+
+        def front():
+            for name, what, root in frontends.graphs(rng, 100 if tier == "quick" else 2000):
+                fe[name] = fe.get(name, 0) + 1
+                trace, leaves = frontends.record(root)
+                try:
+                    entries = list(root.generate_paths())
+                except RecursionError:
+                    continue
+                seen = set()
+                for idx, e in enumerate(entries):
+                    del trace[:]
+                    try:
+                        root.execute(e.path)
+                    except Exception:  # noqa
+                        continue
+                    applied = set(id(n) for n in trace if isinstance(n, graphs.N.Leaf))
+                    if not (applied - seen):
+                        ck.violation("redundant-path:" + name, "%s graph for %s: path %d reaches no leaf that an earlier path had not reached" % (name, what[:200], idx),
+                                     {"stream": "front-ends", "front_end": name, "input": what})
+                        break
+                    seen |= applied
+                miss = [n for n in leaves if id(n) not in seen]
+                if miss:
+                    ck.violation("leaf-not-covered:" + name, "%s graph for %s: %d leaves are applied by no generated path (e.g. %s)" % (
+                        name, what[:200], len(miss), miss[0].description()), {"stream": "front-ends", "front_end": name, "input": what})
+                if len(entries) > len(leaves):
+                    ck.violation("more-paths-than-leaves:" + name, "%s: %d paths for %d leaves" % (name, len(entries), len(leaves)),
+                                 {"stream": "front-ends", "front_end": name, "input": what})
+        fences_env.run_with_big_stack(front, reclimit=RECLIMIT)
+        stats.update({"front_end_" + k: v for k, v in fe.items()})
     ck.sample({"ops": cases[len(cases) // 2][0], "root": 0})
     ck.sample({"ops": cases[-1][0], "root": 0})
     ck.cov["rule"] = ("API programs over the node classes: corpus, then seeded random programs (1..12 nodes, biased to sharing, "
